@@ -134,8 +134,17 @@ def _expand(histories):
     return new_states, viols, outcomes, transitions
 
 
-def explore(ctx, h, leg, max_depth, dedup=True, max_states=None, case_extra=None, procs=1):
-    """BFS to ``max_depth`` (or to the fixpoint if the frontier empties first)."""
+DEFAULT_STATE_CAP = 400000
+
+
+def explore(ctx, h, leg, max_depth, dedup=True, max_states=DEFAULT_STATE_CAP, case_extra=None, procs=1):
+    """BFS to ``max_depth`` (or to the fixpoint if the frontier empties first).
+
+    ``max_states`` is a deterministic budget: on the unchanged tree every leg stays far below it; a change to the
+    library that introduces unbounded hidden state (a counter, a growing cache) would otherwise make the search run on
+    for ever.  Hitting it is reported as a cap (exhaustive: false), never silently."""
+    if max_states == DEFAULT_STATE_CAP and ctx.tier == 'thorough':
+        max_states = 10 * DEFAULT_STATE_CAP
     base = {'leg': leg, 'config': h.config}
     if case_extra:
         base.update(case_extra)
